@@ -266,7 +266,7 @@ type Input struct {
 
 // Gen draws one input. maxLen bounds its size (bytes, approximately).
 func (p *Pool) Gen(s *choice.Stream, maxLen int) Input {
-	kind := s.Pick([]int{5, 4, 3, 2, 2, 2, 1, 1, 3, 3, 3, 3, 5, 2, 1, 1}, "input-kind")
+	kind := s.Pick([]int{5, 4, 3, 2, 2, 2, 1, 1, 3, 3, 4, 3, 5, 2, 1, 1}, "input-kind")
 	var desc string
 	var b []byte
 	switch kind {
